@@ -58,6 +58,7 @@ class StreamConn(object):
         self.shut_wr = [False, False]           # end i sent FIN
         self.addr = [addr0, addr1]
         self.sent_log = None                    # optional list, set by monitors
+        self.capacity = None                    # octets one direction holds in flight (None: unbounded)
         self.ends = [StreamSocket(self, 0), StreamSocket(self, 1)]
 
 
@@ -81,7 +82,9 @@ class StreamSocket(object):
         cond = 0
         if conn.buf[me] or conn.closed[peer] or conn.shut_wr[peer]:
             cond |= GLib.IO_IN
-        cond |= GLib.IO_OUT
+        if conn.capacity is None or len(conn.buf[peer]) < conn.capacity or conn.closed[peer]:
+            # (a pipe that is full is not writable until the peer has read)
+            cond |= GLib.IO_OUT
         return cond
 
     def __repr__(self):
@@ -150,6 +153,12 @@ class StreamSocket(object):
                 return len(data)
             raise ConnectionResetError(errno.ECONNRESET, 'Connection reset by peer')
         take = len(data)
+        if conn.capacity is not None and take > 0:
+            # back-pressure: the peer has not read yet what is in flight
+            space = conn.capacity - len(conn.buf[peer])
+            if space <= 0:
+                raise BlockingIOError(errno.EAGAIN, 'Resource temporarily unavailable')
+            take = min(take, space)
         if not env.used and env.send is not None and take > 0:
             if env.send == 'eagain':
                 env.used = True
